@@ -143,6 +143,9 @@ func (c *fakeConn) SetDeadline(t time.Time) error {
 
 func (c *fakeConn) SetReadDeadline(t time.Time) error {
 	zzvsched.Block(&c.in.hb, func() bool { return true })
+	if c.closed {
+		return net.ErrClosed // like a real connection: deadlines cannot be set once it is closed
+	}
 	c.rdl = t
 	c.SetRD = append(c.SetRD, t)
 	armClock(t)
@@ -151,6 +154,9 @@ func (c *fakeConn) SetReadDeadline(t time.Time) error {
 
 func (c *fakeConn) SetWriteDeadline(t time.Time) error {
 	zzvsched.Block(&c.out.hb, func() bool { return true })
+	if c.closed {
+		return net.ErrClosed
+	}
 	c.wdl = t
 	c.SetWD = append(c.SetWD, t)
 	armClock(t)
